@@ -827,6 +827,8 @@ pub fn eq_any<T>(_: &T, _: &T) -> bool { true }
 pub fn pcmp_any<T>(_: &T, _: &T) -> Option<Ordering> { None }
 pub fn cmp_any<T>(_: &T, _: &T) -> Ordering { Ordering::Equal }
 pub fn pcmp_same<T>(_: &T, _: &T) -> Option<Ordering> { Some(Ordering::Equal) }
+pub fn pcmp_std<T: PartialOrd>(a: &T, b: &T) -> Option<Ordering> { PartialOrd::partial_cmp(a, b) }
+pub fn cmp_std<T: Ord>(a: &T, b: &T) -> Ordering { Ord::cmp(a, b) }
 pub fn hash_any<T, H: Hasher>(_: &T, _: &mut H) {}
 pub fn make_any<T>() -> T { unreachable!() }
 pub fn into_any<T, U>(_: T) -> U { unreachable!() }
